@@ -279,6 +279,16 @@ Definition update_values (kl : list T * list T) (perm index : list nat) (values 
 Definition scale_values (kl : list T * list T) (perm index : list nat) (c : T) :=
   (scale_vals (fst kl) index c, scale_vals (snd kl) (via perm index) c).
 
+(** DirectLDLSolver::offset_values (QDLDL and faer): on the backend's copy only,
+    nzval[perm[idx]] += offset * sign, pairing indices with signs *)
+Definition offset_vals (a : list T) (index : list nat) (offset : T) (signs : list Z) : list T :=
+  fold_left (fun a is => set_nth a (fst is)
+                           (add O (nth (fst is) a (zero O))
+                                  (mul O offset (if Z.eqb (snd is) 1 then one O else neg O (one O)))))
+            (combine index signs) a.
+Definition offset_values (kl : list T * list T) (perm index : list nat) (offset : T) (signs : list Z) :=
+  (fst kl, offset_vals (snd kl) (via perm index) offset signs).
+
 (** per-cone data of a sparse expansion at the current scaling point *)
 Inductive spdata : Type :=
 | SocData (eta : T) (u v : list T)
